@@ -109,9 +109,19 @@ impl<T: Clone> Clone for Identifier<T> {
     fn clone(&self) -> (r: Self) ensures clone_ok::<T>() ==> r == *self { Identifier(self.0.clone()) }
 }
 
+impl<T> vstd::std_specs::convert::FromSpecImpl<(BigRational, T)> for Identifier<T> {
+    open spec fn obeys_from_spec() -> bool { false }
+    uninterp spec fn from_spec(v: (BigRational, T)) -> Self;
+}
 impl<T> From<(BigRational, T)> for Identifier<T> {
-    #[verifier::external_body]
-    fn from(p: (BigRational, T)) -> (r: Self) ensures r@ == seq![p] { Self(vec![(p.0, p.1)]) }
+//@extract fn src/identifier.rs "From for Identifier" from
+    fn from( /*@<*/ (rational, value) /*@>*/ /*@ p @*/ : (BigRational, T)) -> /*@ (r: @*/ Self /*@ ) @*/
+    //@ ensures r@ == seq![p],
+    {
+        //@ let (rational, value) = p;
+        Self(vec![(rational, value)])
+    }
+//@end
 }
 
 impl<T: Clone + Ord + Eq> Identifier<T> {
